@@ -72,7 +72,10 @@ def rand_param(rnd, opt, used, argnames):
             return None
     else:
         names = argnames.pop(0)
-    env = " ".join(rnd.sample(["VERIF_H1", "VERIF_H2", "VERIF_H3"], rnd.choice([0, 0, 1, 2])))
+    # names that are prefixes of one another, up to four entries, sometimes one of them twice
+    env = " ".join(rnd.sample(["VERIF_H1", "VERIF_H2", "VERIF_H3", "VERIF_H", "VERIF_H10", "VERIF"], rnd.choice([0, 0, 1, 2, 2, 3, 4])))
+    if env and rnd.random() < 0.1:
+        env = env + " " + env.split(" ")[0]
     if env and rnd.random() < 0.2:
         env = " " + env.replace(" ", "  ") + " "
     return {"names": names, "type": typ, "default": rand_default(rnd, typ), "env": env, "hide": rnd.random() < 0.2, "desc": rand_desc(rnd)}
@@ -108,7 +111,8 @@ def rand_tree(rnd, depth):
                 nodes[ci]["hidden"] = rnd.random() < 0.25
                 n["subs"].append(ci)
         return idx
-    mk(["app"], depth)
+    # the application's name may be a path or contain blanks
+    mk([rnd.choice(["app", "app", "app", "my tool", "/opt/My Tools/bin/tool", "./a.out"])], depth)
     return nodes
 
 
